@@ -199,6 +199,10 @@ class Interp:
                     cur = cur - val
                 elif isinstance(st.op, ast.BitOr):
                     cur = cur.__ior__(val) if hasattr(cur, '__ior__') else cur | val
+                elif isinstance(st.op, ast.BitAnd):
+                    cur = cur & val
+                elif isinstance(st.op, ast.Mult):
+                    cur = cur * val
                 else:
                     raise self.fail(f'augmented assignment `{ast.unparse(st)[:60]}`')
                 self.assign(st.target, cur, env)
@@ -254,6 +258,23 @@ class Interp:
                         continue
                 if not broke:
                     self.run(st.orelse, env)
+                continue
+            if isinstance(st, ast.With):
+                exits = []
+                for item in st.items:
+                    cm = self.ev(item.context_expr, env)
+                    val = cm
+                    if hasattr(cm, '__enter__') and callable(getattr(cm, '__enter__', None)):
+                        val = cm.__enter__()
+                        exits.append(cm)
+                    if item.optional_vars is not None:
+                        self.assign(item.optional_vars, val, env)
+                try:
+                    self.run(st.body, env)
+                finally:
+                    for cm in reversed(exits):
+                        if hasattr(cm, '__exit__'):
+                            cm.__exit__(None, None, None)
                 continue
             if isinstance(st, ast.While):
                 n = 0
